@@ -210,6 +210,12 @@ impl GlobalInferenceCtx<'_> {
             self.reinfer_usages(usages);
         }
 
+        // the annotation decides the type of weak literals (`x : u8 : comptime { 300 }` must be
+        // checked against u8) before `reinfer_expr` widens the ones that are still weak
+        if let Some(expected) = expected_ty {
+            self.replace_weak_tys(body, expected.expected_ty);
+        }
+
         let mut actual_ty = self.reinfer_expr(body);
 
         let ty_i32 = Ty::IInt(32).into();
@@ -1366,16 +1372,6 @@ impl GlobalInferenceCtx<'_> {
                             continue;
                         }
                     };
-
-                    // an annotation decides the type of a weak expression (`x : u32 : comptime { 4294967295 }`):
-                    // leave it weak for `expect_match` if only the weak type fits the annotation
-                    if let Some(expected) = self.expected_tys.get(expr)
-                        && matches!(self.bodies[expr], Expr::Paren(_) | Expr::Comptime(_) | Expr::Switch { .. })
-                        && !new_ty.can_fit_into(&expected.expected_ty)
-                        && previous_ty.is_weak_replaceable_by(&expected.expected_ty)
-                    {
-                        continue;
-                    }
 
                     if should_actually_replace(self, expr, previous_ty, new_ty) {
                         self.tys[self.loc].expr_tys.insert(expr, new_ty);
